@@ -923,5 +923,6 @@ func main() {
 	r.Set("decoration_cases", cases)
 	r.Set("bounds", bounds)
 	r.Set("traces_validated_against_impl", nloop)
+	concurrentPart(r)
 	r.Finish()
 }
